@@ -17,7 +17,9 @@ fn wit_decode(kind: Kind, raw_ty: u16, value: &[u8], tid: &[u8; 12]) -> Value {
 pub fn check_decode(ctx: &mut Ctx, kind: Kind, raw_ty: u16, value: &[u8], tid: &[u8; 12]) {
     ctx.eval();
     let raw = RawAttribute::new(AttributeType::new(raw_ty), value);
-    ctx.wd.enter("AttributeFromRaw::from_raw", value);
+    let mut t8 = [0u8; 8];
+    t8.copy_from_slice(&tid[..8]);
+    ctx.wd.enter_aux("AttributeFromRaw::from_raw", value, [kind.code() as u64, raw_ty as u64, u64::from_be_bytes(t8), u32::from_be_bytes([tid[8], tid[9], tid[10], tid[11]]) as u64]);
     let r = guard(|| {
         imp::impl_decode(kind, &raw, tid).map(|d| {
             // a value that no wire encoding can carry (more than 65 535 bytes, only possible for an
